@@ -574,6 +574,17 @@ static bool anything_deliverable(void)
 	return false;
 }
 
+int sim_ready_count(void)
+{
+	int n = 0;
+	for (int fd = FD_BASE; fd < next_fd; fd++) {
+		if (fds[fd].open && fds[fd].reg && fds[fd].edge && level_mask(fd) != 0) {
+			n++;
+		}
+	}
+	return n;
+}
+
 void sim_settle(void)
 {
 	if (daemon_state != 2) {
@@ -1185,7 +1196,7 @@ int simk_timerfd_settime(int fd, int flags, const struct itimerspec *new_value, 
 		f->armed = false;
 	} else {
 		f->armed = true;
-		f->deadline = vclock + v;
+		f->deadline = (v > UINT64_MAX - vclock) ? UINT64_MAX : vclock + v;
 	}
 	return 0;
 }
